@@ -170,6 +170,17 @@ class SelectContext(Selector):
         self._predicate = predicate
         self._raise_on_error = bool(raise_on_error)
 
+    def __repr__(self):
+        # Selector.__repr__ can't be used,
+        # because Selector.__init__ is not called.
+        if self._raise_on_error is False:
+            return "SelectContext({}, {}, raise_on_error=False)".format(
+                repr(self._key), repr(self._predicate)
+            )
+        return "SelectContext({}, {})".format(
+            repr(self._key), repr(self._predicate)
+        )
+
     def __call__(self, value):
         context = get_context(value)
         try:
